@@ -1232,6 +1232,22 @@ Qed.
 Lemma nextsid_stepx q h o : h_nextsid h <= h_nextsid (fst (stepx q h o)).
 Proof. apply (s_next 0 _ _ (srel_stepx q 0 h o)). Qed.
 
+(* the refusal of the resume id of a session that is gone: no_such_session, unless the address is
+   throttled after ten failed resumes (then too_many_requests); nothing is created either way *)
+Lemma resume_of_ended_refused_code h c cn n :
+  aget h.(h_conns) c = Some cn -> cn.(c_sess) = None -> get_sess h n = None ->
+  let '(h', outs) := step h (OHello c (HResume (IdPriv n))) in
+  outs = [ToConn c (SError (if throttled h cn.(c_addr) ACT_RESUME then E_too_many_requests else E_no_such_session))] /\
+  h_sessions h' = h_sessions h.
+Proof.
+  intros Hc Hs Hn. cbn [step]. rewrite Hc, Hs. cbn [do_hello].
+  change (throttled (set_conns h (aset (h_conns h) c (mkconn (c_addr cn) None (c_expect cn)))) (c_addr cn) ACT_RESUME)
+    with (throttled h (c_addr cn) ACT_RESUME).
+  destruct (throttled h (c_addr cn) ACT_RESUME); [split; reflexivity|].
+  change (get_sess (set_conns h (aset (h_conns h) c (mkconn (c_addr cn) None (c_expect cn)))) n) with (get_sess h n).
+  rewrite Hn. split; reflexivity.
+Qed.
+
 (* for EVERY continuation: the session is not live, is referenced nowhere (in particular it is a
    member of no room), and a resume with its private id is refused and creates nothing *)
 Definition final (q : bool) (h : hub) (sid : N) : Prop :=
@@ -1239,7 +1255,7 @@ Definition final (q : bool) (h : hub) (sid : N) : Prop :=
     get_sess h2 sid = None /\ unreferenced h2 sid /\
     forall c cn, aget (h_conns h2) c = Some cn -> c_sess cn = None ->
       let '(h3, outs) := step h2 (OHello c (HResume (IdPriv sid))) in
-      (outs = [ToConn c (SError E_no_such_session)] \/ outs = [ToConn c (SError E_too_many_requests)]) /\
+      outs = [ToConn c (SError (if throttled h2 cn.(c_addr) ACT_RESUME then E_too_many_requests else E_no_such_session))] /\
       h_sessions h3 = h_sessions h2.
 
 Theorem final_of_dead q h sid : Good h -> sid <= h_nextsid h -> get_sess h sid = None -> final q h sid.
@@ -1247,8 +1263,20 @@ Proof.
   intros G Hle Hd ops'. destruct (dead_runx q sid ops' h Hle Hd) as [Hd2 _].
   destruct (good_runx q ops' h G) as [W2 _]. cbv zeta.
   split; [exact Hd2|]. split; [now apply no_residue|].
-  intros c cn Hc Hcs. exact (resume_of_ended_session_refused _ c cn sid Hc Hcs Hd2).
+  intros c cn Hc Hcs. exact (resume_of_ended_refused_code _ c cn sid Hc Hcs Hd2).
 Qed.
+
+(* The statement "the resume id of an ended session is refused with no_such_session" does not hold
+   literally: an address that made ten failed resume attempts is throttled and gets
+   too_many_requests instead (still refused, nothing created).  Witness: *)
+Definition throttle_ops : list op :=
+  [OConnect 1 7; OHello 1 (HV1 0 5 false); OBye 1; OConnect 2 9] ++ repeat (OHello 2 (HResume (IdOther 0))) 10.
+Lemma resume_refusal_code_refuted :
+  let h := run (init [0] false) throttle_ops in
+  get_sess h 1 = None /\
+  snd (step h (OHello 2 (HResume (IdPriv 1)))) = [ToConn 2 (SError E_too_many_requests)] /\
+  snd (step h (OHello 2 (HResume (IdPriv 1)))) <> [ToConn 2 (SError E_no_such_session)].
+Proof. vm_compute. split; [reflexivity|split; [reflexivity|discriminate]]. Qed.
 
 Lemma bye_closes h c cn sid :
   aget (h_conns h) c = Some cn -> c_sess cn = Some sid -> get_sess (fst (step h (OBye c))) sid = None.
@@ -1339,3 +1367,24 @@ Corollary qrun_queue_over_segment sid ops h :
   Inv h -> live h sid -> stays_disc true sid h ops ->
   pend (qrun h ops) sid = pend h sid ++ appended true sid h ops.
 Proof. rewrite <- runx_qrun. apply queue_over_segment. Qed.
+
+(* ------------------------------------------------------------------ a message a disconnected session never gets *)
+(* Everything send_session is asked to send to a disconnected session is queued (2.) and delivered
+   by the resume (3.).  But one notice is not sent through send_session at all when the session has
+   no connection: when its room is deleted, a connected member is told that it left the room
+   (`room` with an empty id), a disconnected member is taken out of the room silently
+   (delete_member; hub.go processRoomDeleted: `if client := sess.GetClient(); client != nil`).
+   So "a resumed session has received every message a connected one would have received" does NOT
+   hold: after the resume the client still believes it is in the room. *)
+Definition del_pre : list op := [OConnect 1 100; OHello 1 (HV1 0 7 false); OJoin 1 5 0 (RepOk None 0)].
+Definition del_cut : list op := del_pre ++ [ODrop 1; OApi 0 0 5 ADelete; OConnect 2 101].
+Lemma room_deleted_while_disconnected_refuted :
+  (* connected: told *)
+  snd (qstep (qrun (init [0] false) del_pre) (OApi 0 0 5 ADelete)) = [ToConn 1 (SRoom 0)] /\
+  (* disconnected meanwhile: was in the room when cut, nothing is queued, the resume delivers the hello only,
+     and the session is in no room any more *)
+  option_map s_room (get_sess (qrun (init [0] false) (del_pre ++ [ODrop 1])) 1) = Some (Some (0, 5)) /\
+  pend (qrun (init [0] false) del_cut) 1 = [] /\
+  snd (qstep (qrun (init [0] false) del_cut) (OHello 2 (HResume (IdPriv 1)))) = [ToConn 2 (SHello 1 7)] /\
+  option_map s_room (get_sess (fst (qstep (qrun (init [0] false) del_cut) (OHello 2 (HResume (IdPriv 1))))) 1) = Some None.
+Proof. vm_compute. repeat split. Qed.
